@@ -273,7 +273,8 @@ class Label(Factory, Container, Collection):
             else:
                 raise JsonFormatException(json, "Label.data")
 
-            return Label.ed(entries, **pairs)
+            # (as a dict, not as keywords: a member may be named like a parameter, e.g. "entries")
+            return Label.ed(entries, pairs)
 
         raise JsonFormatException(json, "Label")
 
@@ -509,7 +510,8 @@ class UntypedLabel(Factory, Container, Collection):
             else:
                 raise JsonFormatException(json, "UntypedLabel.data")
 
-            return UntypedLabel.ed(entries, **pairs).specialize()
+            # (as a dict, not as keywords: a member may be named like a parameter, e.g. "entries")
+            return UntypedLabel.ed(entries, pairs).specialize()
 
         raise JsonFormatException(json, "UntypedLabel")
 
